@@ -305,7 +305,7 @@ func (d *l3Driver) setup() {
 func (d *l3Driver) genStep(t *rapid.T) *Action {
 	s, cfg := d.s, d.cfg
 	var a *Action
-	switch rapid.IntRange(0, 20).Draw(t, "step") {
+	switch rapid.IntRange(0, 21).Draw(t, "step") {
 	case 0, 1, 2:
 		a = cfg.GenStoreNew(t, s)
 		if a != nil {
@@ -319,8 +319,17 @@ func (d *l3Driver) genStep(t *rapid.T) *Action {
 		a = cfg.GenTerminate(t, s)
 	case 8:
 		a = cfg.GenRenew(t, s)
+		if a != nil && rapid.IntRange(0, 2).Draw(t, "unknownIds") == 0 {
+			a.Data = append(a.Data, genUnknownIds(t)...)
+		}
 	case 9:
 		a = cfg.GenMigrate(t, s)
+		if a == nil && rapid.Bool().Draw(t, "migrateNothing") {
+			a = NewAction("migrate", rapid.SampledFrom(cfg.Providers).Draw(t, "sp"))
+		}
+		if a != nil && rapid.IntRange(0, 2).Draw(t, "unknownIds") == 0 {
+			a.Data = append(a.Data, genUnknownIds(t)...)
+		}
 	case 10:
 		a = cfg.GenClaim(t, s)
 	case 11:
@@ -340,6 +349,8 @@ func (d *l3Driver) genStep(t *rapid.T) *Action {
 		a = d.sidRotationArm(t)
 	case 19:
 		a = d.govParamArm(t)
+	case 20:
+		a = d.genCapacity(t)
 	}
 	if a == nil {
 		a = NewAction("advance", 0)
@@ -479,6 +490,43 @@ func (d *l3Driver) govParamArm(t *rapid.T) *Action {
 	v2.Order = p.Order
 	d.labels["gov-param-arm"]++
 	return v2
+}
+
+// genUnknownIds: several data ids nobody stored (requests that list them answer per id; the order
+// of such per-id answers must not depend on the process).
+func genUnknownIds(t *rapid.T) []string {
+	n := rapid.IntRange(2, 7).Draw(t, "nUnknown")
+	var out []string
+	for i := 0; i < n; i++ {
+		out = append(out, DataIdN(900+rapid.IntRange(0, 40).Draw(t, "unknownId")))
+	}
+	return out
+}
+
+// genCapacity: a provider withdraws capacity (aimed at everything that is free, which for a provider
+// without shards leaves a pledge record without collateral) or adds some.
+func (d *l3Driver) genCapacity(t *rapid.T) *Action {
+	s := d.s
+	p := rapid.SampledFrom(d.cfg.Providers).Draw(t, "sp")
+	pl, ok := s.Last.Pledges[s.bech(p)]
+	if !ok {
+		return nil
+	}
+	if pl.TotalStorage == 0 || rapid.IntRange(0, 3).Draw(t, "add") == 0 {
+		a := NewAction("add_vstorage", p)
+		a.Size = uint64(rapid.SampledFrom([]int{1_000_000, 10_000_000, 1_000_000_000}).Draw(t, "size"))
+		return a
+	}
+	free := pl.TotalStorage - pl.UsedStorage
+	unit := int64(1_000_000)
+	a := NewAction("remove_vstorage", p)
+	sz := rapid.SampledFrom([]int64{free / unit * unit, free, unit, pl.TotalStorage}).Draw(t, "size")
+	if sz <= 0 {
+		sz = unit
+	}
+	a.Size = uint64(sz)
+	d.labels["capacity-withdrawal-tried"]++
+	return a
 }
 
 // genFault: a fishman (designated in the base genesis) reports a fault on a stored shard.
